@@ -99,7 +99,7 @@ MUTANTS = [
     ('bnorm-octal-removed', ['C18', 'C20'], UT, "    (\\\\(?:x[\\da-fA-F]{2}|([0-7]{1,3})))|\n    (\\\\[^x]) |\n    (\\\\[x])", "    (\\\\(?:x[\\da-fA-F]{2}|([0-7]{1,2})))|\n    (\\\\[^x]) |\n    (\\\\[x])"),
     ('match-type-check-removed', ['C18'], MT, "            if not isinstance(self.filename, type(root)):", "            if False:"),
     ('lru-untyped', ['C19'], P, "@functools.lru_cache(maxsize=256, typed=True)", "@functools.lru_cache(maxsize=256, typed=False)"),
-    ('cache-key-drops-flags', ['C19'], P, "def _compile(pattern: AnyStr, flags: int) -> Pattern[AnyStr]:\n    \"\"\"Compile the pattern to regex.\"\"\"\n\n    return re.compile(WcParse(pattern, flags & FLAG_MASK).parse())",
+    ('cache-key-drops-flags', ['C19'], P, "@functools.lru_cache(maxsize=256, typed=True)\ndef _compile(pattern: AnyStr, flags: int) -> Pattern[AnyStr]:\n    \"\"\"Compile the pattern to regex.\"\"\"\n\n    return re.compile(WcParse(pattern, flags & FLAG_MASK).parse())",
      "_CACHE = {}\n\n\ndef _compile(pattern: AnyStr, flags: int) -> Pattern[AnyStr]:\n    \"\"\"Compile the pattern to regex.\"\"\"\n\n    key = (pattern, flags & ~DOTMATCH)\n    if key not in _CACHE:\n        _CACHE[key] = re.compile(WcParse(pattern, flags & FLAG_MASK).parse())\n    return _CACHE[key]"),
     ('eq-ignores-exclude', ['C19'], MT, "            self._include == other._include and\n            self._exclude == other._exclude and", "            self._include == other._include and"),
     ('pickle-drops-follow', ['C19'], MT, "copyreg.pickle(WcRegexp, lambda p: (WcRegexp, (p._include, p._exclude, p._real, p._path, p._follow)))", "copyreg.pickle(WcRegexp, lambda p: (WcRegexp, (p._include, p._exclude, p._real, p._path)))"),
